@@ -169,10 +169,9 @@ def _check(impl, scn_text, an=None):
                 F.append(("c13-tcp-peer" if natted else "c13-tcp-real", "%s is %s; connector %s is bound to %s%s: expected %s" % (
                     what, fmt_ep(e), c.sock, fmt_ep(c.local_known), (" behind NAT %s" % scn.ext_of(c.local_known[0])) if natted else " (no NAT on its route)", fmt_ep(exp))))
                 break
-        misuse = any(arr.pos < p < comp.pos for p in an.reopened.get(comp.acc.name, []))
         for (pos, ctx, val) in inc.locals:
             e = parse_ep(val)
-            if e is not None and c.dialled is not None and e != c.dialled and not misuse and not c.ambiguous:
+            if e is not None and c.dialled is not None and e != c.dialled and not c.ambiguous:
                 F.append(("c13-tcp-own-local", "%s (accepted): local endpoint reads %s, the connector dialled %s" % (inc.sock, val, fmt_ep(c.dialled))))
                 break
         # both directions work through the NAT
